@@ -16,6 +16,7 @@ RULE = ('valid multi-line programs (random derivations of the grammar, 1-6 state
         'token position and (b) truncating at every token boundary; plus directed cases. A case is non-trivial when the real '
         'parser raised from the parser (not the lexer) and the message was checked against the token M7 saw last; distinct = '
         'distinct source text.')
+RULE += ' Strings and comments before the error contain CR/VT/FF/FS-RS/NEL/U+2028/U+2029; one case in four goes through eval, one in four is resubmitted on a caching parser below two more blank lines (expected line + 2), one in seven is preceded by an arbitrary earlier call.'
 ASSUMPTIONS = ['the offending token is the last token the LALR(1) parser pulled from the lexer (M7)',
                'physical line = 1 + number of "\\n" characters before the token\'s first character',
                '"names the token" = the message contains the raw source slice of the token or str() of its normalised value',
